@@ -368,7 +368,7 @@ func c19Body(w *W) {
 	var blobs [][]byte
 	var names []string
 	for _, t := range ts {
-		if t.big {
+		if t.big || t.aux {
 			continue
 		}
 		for m := 0; m < 4; m++ {
